@@ -147,17 +147,9 @@ theorem WFHist.fresh {done rest : List Event} {e : Event} (hwf : WFHist (done ++
   · exact h hk'
   · exact h hs'
 
-theorem step_ev {cs : Nat → Nat} {s : Net} {done rest : List Event} {e : Event} (h : Inv s)
-    (tr : Track done s) (hwf : WFHist (done ++ e :: rest)) :
+theorem step_ev_plugin {cs : Nat → Nat} {s : Net} {done : List Event} {e : Event} (h : Inv s)
+    (tr : Track done s) (hk : e.kind = .plugin) (ha : (s.ev e.sess).arrived = false) :
     ∃ s1, s.processEvent cs e = .ok s1 ∧ Inv s1 ∧ Track (done ++ [e]) s1 := by
-  cases hk : e.kind with
-  | plugin =>
-    have hfresh := hwf.fresh (by rw [hk]; simp)
-    have ha : (s.ev e.sess).arrived = false := by
-      by_contra hc
-      have : (s.ev e.sess).arrived = true := by simpa using hc
-      obtain ⟨a, ha, hk', hs'⟩ := (tr.arrived_iff _).1 this
-      exact hfresh ⟨a, ha, by rw [hk', hk], hs'⟩
     obtain ⟨s1, h1⟩ := h.plugin_ok cs e.sess
     have hi := h.pluginEvent e.sess ha h1
     have hf := plugin_flags h1
@@ -186,15 +178,11 @@ theorem step_ev {cs : Nat → Nat} {s : Net} {done rest : List Event} {e : Event
       · rintro ⟨a, ha' | ha', hka, hsa⟩
         · exact ⟨a, ha', hka, hsa⟩
         · rw [ha', hk] at hka; cases hka
-  | unplug =>
-    have hfresh := hwf.fresh (by rw [hk]; simp)
-    obtain ⟨p, hp, hpk, hps⟩ := hwf.2 done e rest rfl hk
-    have ha : (s.ev e.sess).arrived = true := (tr.arrived_iff _).2 ⟨p, hp, hpk, hps⟩
-    have hd : (s.ev e.sess).departed = false := by
-      by_contra hc
-      have : (s.ev e.sess).departed = true := by simpa using hc
-      obtain ⟨a, ha', hk', hs'⟩ := (tr.departed_iff _).1 this
-      exact hfresh ⟨a, ha', by rw [hk', hk], hs'⟩
+
+theorem step_ev_unplug {cs : Nat → Nat} {s : Net} {done : List Event} {e : Event} (h : Inv s)
+    (tr : Track done s) (hk : e.kind = .unplug) (ha : (s.ev e.sess).arrived = true)
+    (hd : (s.ev e.sess).departed = false) :
+    ∃ s1, s.processEvent cs e = .ok s1 ∧ Inv s1 ∧ Track (done ++ [e]) s1 := by
     obtain ⟨s1, h1⟩ := h.unplug_ok e.sess ha hd
     have hi := h.unplugEvent e.sess ha hd h1
     have hf := unplug_flags h1
@@ -222,7 +210,10 @@ theorem step_ev {cs : Nat → Nat} {s : Net} {done rest : List Event} {e : Event
         · rintro ⟨a, ha' | ha', hka, hsa⟩
           · rw [(hf x).2.1]; exact (tr.departed_iff x).2 ⟨a, ha', hka, hsa⟩
           · rw [ha'] at hsa; exact absurd hsa.symm hx
-  | recompute =>
+
+theorem step_ev_rec {cs : Nat → Nat} {s : Net} {done : List Event} {e : Event} (h : Inv s)
+    (tr : Track done s) (hk : e.kind = .recompute) :
+    ∃ s1, s.processEvent cs e = .ok s1 ∧ Inv s1 ∧ Track (done ++ [e]) s1 := by
     refine ⟨s, by simp [Net.processEvent, hk, pure, Except.pure], h, ?_, ?_⟩
     · intro x; rw [tr.arrived_iff x]
       simp only [List.mem_append, List.mem_singleton]
@@ -238,6 +229,31 @@ theorem step_ev {cs : Nat → Nat} {s : Net} {done rest : List Event} {e : Event
       · rintro ⟨a, ha' | ha', hka, hsa⟩
         · exact ⟨a, ha', hka, hsa⟩
         · rw [ha', hk] at hka; cases hka
+
+
+theorem step_ev {cs : Nat → Nat} {s : Net} {done rest : List Event} {e : Event} (h : Inv s)
+    (tr : Track done s) (hwf : WFHist (done ++ e :: rest)) :
+    ∃ s1, s.processEvent cs e = .ok s1 ∧ Inv s1 ∧ Track (done ++ [e]) s1 := by
+  cases hk : e.kind with
+  | plugin =>
+    have hfresh := hwf.fresh (by rw [hk]; simp)
+    have ha : (s.ev e.sess).arrived = false := by
+      by_contra hc
+      have : (s.ev e.sess).arrived = true := by simpa using hc
+      obtain ⟨a, ha, hk', hs'⟩ := (tr.arrived_iff _).1 this
+      exact hfresh ⟨a, ha, by rw [hk', hk], hs'⟩
+    exact step_ev_plugin h tr hk ha
+  | unplug =>
+    have hfresh := hwf.fresh (by rw [hk]; simp)
+    obtain ⟨p, hp, hpk, hps⟩ := hwf.2 done e rest rfl hk
+    have ha : (s.ev e.sess).arrived = true := (tr.arrived_iff _).2 ⟨p, hp, hpk, hps⟩
+    have hd : (s.ev e.sess).departed = false := by
+      by_contra hc
+      have : (s.ev e.sess).departed = true := by simpa using hc
+      obtain ⟨a, ha', hk', hs'⟩ := (tr.departed_iff _).1 this
+      exact hfresh ⟨a, ha', by rw [hk', hk], hs'⟩
+    exact step_ev_unplug h tr hk ha hd
+  | recompute => exact step_ev_rec h tr hk
 
 /-- the invariant holds along every well-formed run, and no step raises -/
 theorem run_good (cs : Nat → Nat) : ∀ (steps : List Step) (done : List Event) (s : Net),
